@@ -34,4 +34,8 @@ def fromTotal (ntp : Nat) : Nat := (ntp >>> 32) + fromUs ntp / 1000000
 def fromNtp (ntp : Nat) : Nat × Nat × Nat :=
   (fromTotal ntp / 86400, fromTotal ntp % 86400, fromUs ntp % 1000000)
 
+/-- `(clock.current_ntp_time() >> 14) & 0x00FFFFFF` — the abs-send-time header extension set by `RTCRtpSender._run_rtp`
+(6.18 fixed point seconds). -/
+def absSendTime (ntp : Nat) : Nat := (ntp >>> 14) &&& 0x00FFFFFF
+
 end Aiortc.Model.Ntp
